@@ -110,6 +110,8 @@ type c15Rec struct {
 	Errors  []string
 	// WriteErrs are the errors of the real querylog.FileSystem.
 	WriteErrs []string
+	// Upstream counts the calls of the scripted upstream.
+	Upstream int
 }
 
 // c15QueryLog records the entry and passes it to the real file query log.
@@ -162,22 +164,22 @@ type c15Config struct {
 // c15Outcomes lists the outcomes, simplest first.
 var c15Outcomes = []string{
 	"passed",
-	"req-blocked",       // blocked by a request rule
-	"resp-blocked",      // blocked by a response rule
-	"rewritten-resp",    // request rewritten into a response (dnsrewrite / safe search)
-	"rewritten-cname",   // request rewritten to another name which is then resolved
-	"req-allowed",       // allowed by an allowlist rule matching the request
-	"resp-allowed",      // allowed by an allowlist rule matching the response
-	"access-profile",    // client address in the profile's blocked networks
-	"access-global-ip",  // client address in the globally blocked networks
+	"req-blocked",        // blocked by a request rule
+	"resp-blocked",       // blocked by a response rule
+	"rewritten-resp",     // request rewritten into a response (dnsrewrite / safe search)
+	"rewritten-cname",    // request rewritten to another name which is then resolved
+	"req-allowed",        // allowed by an allowlist rule matching the request
+	"resp-allowed",       // allowed by an allowlist rule matching the response
+	"access-profile",     // client address in the profile's blocked networks
+	"access-global-ip",   // client address in the globally blocked networks
 	"access-global-name", // question name blocked by the global access rules
-	"rl-global",         // dropped by the global rate limiter
-	"rl-profile",        // dropped by the profile's rate limiter
-	"debug",             // CHAOS-class debug query
-	"debug-blocked",     // CHAOS-class debug query for a name blocked by a request rule
-	"upstream-error",    // the upstream handler fails
-	"upstream-servfail", // the upstream answers SERVFAIL
-	"upstream-nxdomain", // the upstream answers NXDOMAIN
+	"rl-global",          // dropped by the global rate limiter
+	"rl-profile",         // dropped by the profile's rate limiter
+	"debug",              // CHAOS-class debug query
+	"debug-blocked",      // CHAOS-class debug query for a name blocked by a request rule
+	"upstream-error",     // the upstream handler fails
+	"upstream-servfail",  // the upstream answers SERVFAIL
+	"upstream-nxdomain",  // the upstream answers NXDOMAIN
 }
 
 // c15Stack is one freshly built production chain.
@@ -232,6 +234,7 @@ func c15Prefixes(ss ...string) (ps []netip.Prefix) {
 // the outcome.
 func (s *c15Stack) upstream() dnsserver.Handler {
 	return dnsserver.HandlerFunc(func(ctx context.Context, rw dnsserver.ResponseWriter, req *dns.Msg) (err error) {
+		s.rec.Upstream++
 		q := req.Question[0]
 		resp := &dns.Msg{}
 		resp.SetReply(req)
@@ -625,6 +628,9 @@ type c15Query struct {
 	// name for DoT and DoQ, URL path for DoH); for plain DNS it selects whom
 	// the profile database finds by linked IP.
 	Dev agd.DeviceID `json:"dev,omitempty"`
+	// Alt makes the request carry Dev the alternative way: in the dnsmasq
+	// CPE-ID EDNS option for plain DNS, in the TLS server name for DoH.
+	Alt bool `json:"alt,omitempty"`
 }
 
 // c15Obs is what one request produced.
@@ -644,6 +650,8 @@ type c15Obs struct {
 
 	Errors    []string
 	WriteErrs []string
+	// Upstream is the number of calls of the upstream during this request.
+	Upstream int
 
 	Start time.Time
 	ReqID agd.RequestID
@@ -673,12 +681,15 @@ func (s *c15Stack) serve(q c15Query, id uint16, reqID byte) (o *c15Obs) {
 		w.raddr = &net.UDPAddr{IP: ip, Port: 40000}
 	}
 	s.ident = ""
+	var cpeID string
 	switch q.Proto {
 	case "dns":
-		switch q.Dev {
-		case c15DevID:
+		switch {
+		case q.Alt:
+			cpeID = string(q.Dev)
+		case q.Dev == c15DevID:
 			s.ident = "p1"
-		case c15WarmDevID:
+		case q.Dev == c15WarmDevID:
 			s.ident = "p2"
 		}
 	case "dot", "doq":
@@ -687,7 +698,11 @@ func (s *c15Stack) serve(q c15Query, id uint16, reqID byte) (o *c15Obs) {
 		}
 	case "doh":
 		sri.URL = &url.URL{Path: dnsserver.PathDoH}
-		if q.Dev != "" {
+		switch {
+		case q.Dev == "":
+		case q.Alt:
+			sri.TLSServerName = string(q.Dev) + "." + c15DevDomain
+		default:
 			sri.URL.Path = dnsserver.PathDoH + "/" + string(q.Dev)
 		}
 	}
@@ -699,6 +714,11 @@ func (s *c15Stack) serve(q c15Query, id uint16, reqID byte) (o *c15Obs) {
 	*s.rec = c15Rec{}
 	s.truncate()
 	req := vdns.NewReq(id, q.Name, q.QType, q.QClass)
+	if cpeID != "" {
+		req.SetEdns0(1232, false)
+		opt := req.IsEdns0()
+		opt.Option = append(opt.Option, &dns.EDNS0_LOCAL{Code: 65074, Data: []byte(cpeID)})
+	}
 	var err error
 	if p := vrt.Catch(func() { err = h.ServeDNS(ctx, w, req) }); p != "" {
 		err = fmt.Errorf("PANIC: %s", p)
@@ -712,6 +732,7 @@ func (s *c15Stack) serve(q c15Query, id uint16, reqID byte) (o *c15Obs) {
 		o.Err = err.Error()
 	}
 	o.Entries, o.Bills, o.Errors, o.WriteErrs = s.rec.Entries, s.rec.Bills, s.rec.Errors, s.rec.WriteErrs
+	o.Upstream = s.rec.Upstream
 	data, rerr := os.ReadFile(s.path)
 	if rerr != nil && !os.IsNotExist(rerr) {
 		vrt.Fatalf("reading the log file: %v", rerr)
